@@ -225,6 +225,15 @@ def install(world):
 from pyvc import contract as _C
 _C.INSTALLERS.append(install)
 
+class _ClsElem(Desc):
+    name = "class"
+
+    def unbox(self, ex, t):
+        return VCls(t)
+
+
+CLASSES = Seq("tuple", elem=_ClsElem())
+
 CLS = Cls(name="class")        # a symbolic class
 REG_CASES = {
     "cache,no-shortcut": dict(self=Rec("TypeRegistry", cache=TRUE), t=CLS),
@@ -264,7 +273,9 @@ class DECORATOR:
     """registration: live' = live + {(detector, f, priority)} with the newest stamp; I1..I4 preserved --
     in particular a registration made after a resolve is seen by the next resolve (I3)."""
     cases = {"any": dict(f=OBJ_NN)}
-    closure = dict(self=Rec("TypeRegistry"), detector=OBJ_NN, priority=INT)
+    # every variable of register() a decorator body could read (the ones it does not read cost nothing)
+    closure = dict(self=Rec("TypeRegistry"), detector=OBJ_NN, priority=INT, classes=CLASSES,
+                   attr=OBJ, metaclass=OBJ, allow_subclasses=BOOL)
     calls = "pure"
     requires = {"invariant": "reg_inv(self)"}
     returns = {
@@ -281,14 +292,6 @@ class DECORATOR:
     modifies = ["self._registry", "self._cache"]
 
 
-class _ClsElem(Desc):
-    name = "class"
-
-    def unbox(self, ex, t):
-        return VCls(t)
-
-
-CLASSES = Seq("tuple", elem=_ClsElem())
 _DET_SPEC = ("(len(classes) == 0 or (exists(len(classes), lambda i: subclass(_cls, classes[i])) if allow_subclasses"
              " else (_cls in classes))) and (metaclass is None or isinst(_cls, metaclass))"
              " and (attr is None or hasattr(_cls, '__some_attr__'))")
